@@ -1274,7 +1274,7 @@ static void Disassemble_87C800(
             pInfo->NextAddresses[pInfo->NextAddressCount++]
                     = (Address + 2 + Dist) & 0xffff;
             as_snprintf(
-                    pInfo->SrcLine, sizeof(pInfo->SrcLine), "jrs\tt,%sh",
+                    pInfo->SrcLine, sizeof(pInfo->SrcLine), "jrs\tt,%s",
                     MakeSymbolic(
                             pInfo->NextAddresses[1], 2, "lab_", NumBuf, sizeof(NumBuf)));
             break;
@@ -1319,7 +1319,7 @@ static void Disassemble_87C800(
             pInfo->NextAddresses[pInfo->NextAddressCount++]
                     = (Address + 2 + Dist) & 0xffff;
             as_snprintf(
-                    pInfo->SrcLine, sizeof(pInfo->SrcLine), "jrs\tf,%sh",
+                    pInfo->SrcLine, sizeof(pInfo->SrcLine), "jrs\tf,%s",
                     MakeSymbolic(
                             pInfo->NextAddresses[1], 2, "lab_", NumBuf, sizeof(NumBuf)));
             break;
@@ -1372,7 +1372,7 @@ static void Disassemble_87C800(
             pInfo->NextAddresses[pInfo->NextAddressCount++]
                     = (Address + 2 + Dist) & 0xffff;
             as_snprintf(
-                    pInfo->SrcLine, sizeof(pInfo->SrcLine), "jr\t%s,%sh",
+                    pInfo->SrcLine, sizeof(pInfo->SrcLine), "jr\t%s,%s",
                     RelNames[Opcode & 7],
                     MakeSymbolic(
                             pInfo->NextAddresses[1], 2, "lab_", NumBuf, sizeof(NumBuf)));
@@ -1474,7 +1474,7 @@ static void Disassemble_87C800(
             pInfo->NextAddresses[pInfo->NextAddressCount++]
                     = (Address + 2 + Dist) & 0xffff;
             as_snprintf(
-                    pInfo->SrcLine, sizeof(pInfo->SrcLine), "jr\t%sh",
+                    pInfo->SrcLine, sizeof(pInfo->SrcLine), "jr\t%s",
                     MakeSymbolic(
                             pInfo->NextAddresses[0], 2, "lab_", NumBuf, sizeof(NumBuf)));
             break;
@@ -1487,7 +1487,7 @@ static void Disassemble_87C800(
             pInfo->NextAddresses[pInfo->NextAddressCount++]
                     = (((Word)Data[1]) << 8) | Data[0];
             as_snprintf(
-                    pInfo->SrcLine, sizeof(pInfo->SrcLine), "call\t%sh",
+                    pInfo->SrcLine, sizeof(pInfo->SrcLine), "call\t%s",
                     MakeSymbolic(
                             pInfo->NextAddresses[1], 2, "sub_", NumBuf, sizeof(NumBuf)));
             break;
@@ -1499,7 +1499,7 @@ static void Disassemble_87C800(
             SimpleNextAddress(pInfo, Address);
             pInfo->NextAddresses[pInfo->NextAddressCount++] = 0xff00 + Data[0];
             as_snprintf(
-                    pInfo->SrcLine, sizeof(pInfo->SrcLine), "callp\t%sh",
+                    pInfo->SrcLine, sizeof(pInfo->SrcLine), "callp\t%s",
                     MakeSymbolic(
                             pInfo->NextAddresses[1], 2, "sub_", NumBuf, sizeof(NumBuf)));
             break;
@@ -1511,7 +1511,7 @@ static void Disassemble_87C800(
             pInfo->NextAddresses[pInfo->NextAddressCount++]
                     = (((Word)Data[1]) << 8) | Data[0];
             as_snprintf(
-                    pInfo->SrcLine, sizeof(pInfo->SrcLine), "jp\t%sh",
+                    pInfo->SrcLine, sizeof(pInfo->SrcLine), "jp\t%s",
                     MakeSymbolic(
                             pInfo->NextAddresses[0], 2, "lab_", NumBuf, sizeof(NumBuf)));
             break;
